@@ -377,7 +377,7 @@ static void emit_sparse_model_witness() {
 // ---------------------------------------------------------------- cases
 static const long kWitness = 13;
 
-long verif::verif_ncases(const std::string & tier) { return kWitness + (tier == "thorough" ? 60000 : 5000); }
+long verif::verif_ncases(const std::string & tier) { return kWitness + (tier == "thorough" ? 250000 : 20000); }
 
 static void witness(Rng & rng, long idx) {
     const double e21 = std::ldexp(1.0, -21);
